@@ -308,7 +308,12 @@ fn execute_inner(sc: &AisleScenario) -> (Vec<Violation>, AisleStats) {
             }
         }
     }
-    let model = model_parse(text).or_else(|| if parsed.is_ok() { model_parse_with(text, false) } else { None });
+    // (lenient where the statement is silent and an implementation may reasonably differ from the
+    // pinned one: a `|` inside a category header kept verbatim, and a byte order mark in front of
+    // the file ignored)
+    let model = model_parse(text)
+        .or_else(|| if parsed.is_ok() { model_parse_with(text, false) } else { None })
+        .or_else(|| if parsed.is_ok() { text.strip_prefix('\u{feff}').and_then(|t| model_parse(t).or_else(|| model_parse_with(t, false))) } else { None });
     let conf = match parsed {
         Err(e) => {
             st.parse_err = Some(format!("{e}"));
@@ -1153,14 +1158,20 @@ pub fn worker(a: &Args) -> i32 {
             };
             let k = alpha.len() as u64;
             let mut idx = 0u64;
-            for len in 0..=maxlen {
+            // every string, and every string of up to maxlen - 2 symbols once more behind a byte
+            // order mark (what editors put in front of a file)
+            for (prefix, upto) in [("", maxlen), ("\u{feff}", maxlen.saturating_sub(2))] {
+            for len in 0..=upto {
+                if !prefix.is_empty() && len == 0 {
+                    continue;
+                }
                 let total = k.pow(len as u32);
                 for code in 0..total {
                     idx += 1;
                     if idx % workers != worker {
                         continue;
                     }
-                    let mut s = String::new();
+                    let mut s = String::from(prefix);
                     let mut c = code;
                     for _ in 0..len {
                         s.push_str(alpha[(c % k) as usize]);
@@ -1181,6 +1192,7 @@ pub fn worker(a: &Args) -> i32 {
                 if out.violations.len() >= max_viol {
                     break;
                 }
+            }
             }
         }
         _ => die("unknown --mode"),
